@@ -177,18 +177,70 @@ theorem backfill_exact_partial (fixed : Bool) (maxBD : Int) (N : Nat) (input : L
       ∀ x ∈ b.samples, (⟨x.1, some x.2.1, x.2.2⟩ : Sample) ∈ input ∧ b.mint ≤ x.2.1 ∧ x.2.1 < b.maxt :=
   backfill_sound_aux fixed maxBD N input
 
-/-- The full statement (repaired alignment): additionally, when every series' timestamps are strictly
-    increasing in file order inside each window, the run succeeds and every input sample is in some block.
-    NOT proved as one theorem: the window/loop half is (`windows_cover`: each timestamp has exactly one
-    visited window; `skip_optimisation_sound`: no window holding a sample is skipped), the remaining
-    head-commit half (a per-series increasing batch is stored entirely by `commit`) is checked by the
-    correspondence and the judge only. -/
-def backfill_exact_full : Prop :=
-  ∀ (maxBD : Int) (N : Nat) (input : List Sample), 0 < N → AllTimed input →
-    (∀ d, getCompatibleBlockDuration maxBD = .ok d →
-      ∀ (pre : List Sample) (x y : Sample) (post : List Sample) (tx ty : Int), input = pre ++ x :: post → y ∈ pre → y.s = x.s →
-        x.t = some tx → y.t = some ty → ty / d = tx / d → ty < tx) →
+/-- **backfill_exact** (repaired alignment, any sign of timestamps, any batch size `N`, any block duration):
+    if every sample has a timestamp (strictly inside the int64 sentinels the code uses) and, in file order,
+    every series is strictly increasing inside each aligned window, then the run succeeds, every input
+    sample is in some block, and (soundness, `backfill_exact_partial`) every block lies in one aligned window
+    and holds only input samples.  Proof: `windows_cover` (each timestamp has its visited window),
+    `skip_optimisation_sound` (the skipping loop = the plain loop), and the head invariant
+    `windowPass_complete` (a window pass stores exactly the window's samples, in file order, across all
+    intermediate commits). -/
+theorem backfill_exact (maxBD : Int) (N : Nat) (input : List Sample) (hall : AllTimed input)
+    (hb : ∀ x ∈ input, ∀ ts, x.t = some ts → minI64 < ts ∧ ts < maxI64)
+    (hinc : ∀ d, getCompatibleBlockDuration maxBD = .ok d → ∀ k : Int, Inc (winSamples (d * k) (d * k + d) input)) :
     (backfillG true maxBD N input).1 = none ∧
-    ∀ x ∈ input, ∀ tx, x.t = some tx → ∃ b ∈ (backfillG true maxBD N input).2, (x.s, tx, x.v) ∈ b.samples
+    (∀ x ∈ input, ∀ tx, x.t = some tx → ∃ b ∈ (backfillG true maxBD N input).2, (x.s, tx, x.v) ∈ b.samples) ∧
+    (∀ b ∈ (backfillG true maxBD N input).2, ∃ d k : Int, getCompatibleBlockDuration maxBD = .ok d ∧
+      d * k ≤ b.mint ∧ b.mint < b.maxt ∧ b.maxt ≤ d * k + d ∧ b.samples ≠ [] ∧
+      ∀ x ∈ b.samples, (⟨x.1, some x.2.1, x.2.2⟩ : Sample) ∈ input ∧ b.mint ≤ x.2.1 ∧ x.2.1 < b.maxt) := by
+  refine ⟨?_, ?_, backfill_exact_partial true maxBD N input⟩
+  all_goals
+    obtain ⟨d, hd_eq, _, hdpos, _⟩ := block_duration_compatible maxBD
+    obtain ⟨maxt, mint, hmm, hbounds⟩ := getMinMax_bounds input hall hb
+    obtain ⟨k0, hk0⟩ := alignStart_mul true d mint
+    have hwin : ∀ j : Nat, alignStart true d mint + (j : Int) * d = d * (k0 + j) := by
+      intro j; rw [hk0, Int.mul_add, Int.mul_comm d j]
+    have hcomp : ∀ j : Nat, ∃ ob n, windowPass d N (alignStart true d mint + j * d) input = .ok (ob, n) ∧
+        (winSamples (alignStart true d mint + j * d) (alignStart true d mint + j * d + d) input = [] → ob = none) ∧
+        (winSamples (alignStart true d mint + j * d) (alignStart true d mint + j * d + d) input ≠ [] →
+          ∃ b, ob = some b ∧ b.samples = winSamples (alignStart true d mint + j * d) (alignStart true d mint + j * d + d) input) := by
+      intro j
+      apply windowPass_complete input d N _ hdpos hall
+      rw [hwin j]; exact hinc d hd_eq (k0 + j)
+    have hok : ∀ j : Nat, ∃ ob n, windowPass d N (alignStart true d mint + j * d) input = .ok (ob, n) := by
+      intro j; obtain ⟨ob, n, h, _⟩ := hcomp j; exact ⟨ob, n, h⟩
+    have e0 : alignStart true d mint + ((0 : Nat) : Int) * d = alignStart true d mint := by simp
+    have L := blockLoop_noskip_complete input d N maxt (alignStart true d mint) hdpos hok
+      (iterations (alignStart true d mint) maxt d) 0 maxI64 []
+    rw [e0] at L
+    have hres : backfillG true maxBD N input =
+        blockLoop false d N maxt input (iterations (alignStart true d mint) maxt d) (alignStart true d mint) maxI64 [] := by
+      unfold backfillG; rw [hmm]; simp only [createBlocks]; rw [hd_eq]; simp only
+      exact skip_optimisation_sound d N maxt input hdpos hall _ _
+    rw [hres]
+  · exact L.1
+  · intro x hx tx htx
+    obtain ⟨h1, h2⟩ := hbounds x hx tx htx
+    obtain ⟨j, ⟨hj, ha, hb'⟩, _⟩ := windows_cover d mint maxt tx hdpos h1 h2
+    obtain ⟨ob, n, hw, _, hne⟩ := hcomp j
+    have hmem := mem_winSamples (alignStart true d mint + j * d) (alignStart true d mint + j * d + d) input x hx tx htx ha hb'
+    obtain ⟨b, hob, hbs⟩ := hne (List.ne_nil_of_mem hmem)
+    subst hob
+    refine ⟨b, ?_, by rw [hbs]; exact hmem⟩
+    exact L.2.2 j (by omega) (by omega) ((iterations_exact _ maxt d hdpos).1 j hj) b n hw
+
+example : ∀ d (k : Int), Inc (winSamples (d * k) (d * k + d)
+    [⟨0, some (-5000), 1⟩, ⟨1, some 3000, 2⟩, ⟨0, some 7205000, 3⟩]) := by
+  intro d k
+  simp only [winSamples, Inc]
+  repeat' split
+  all_goals simp
+  all_goals omega
+
+example : AllTimed [(⟨0, some (-5000), 1⟩ : Sample), ⟨0, some 3000, 2⟩] ∧
+    (∀ x ∈ [(⟨0, some (-5000), 1⟩ : Sample), ⟨0, some 3000, 2⟩], ∀ ts, x.t = some ts → minI64 < ts ∧ ts < maxI64) := by
+  constructor
+  · intro x hx; simp at hx; rcases hx with rfl | rfl <;> simp
+  · intro x hx ts h; simp at hx; rcases hx with rfl | rfl <;> (simp at h; subst h; decide)
 
 end Prom.C50
